@@ -10,6 +10,26 @@ TRUST = ("Trusted: rustc nightly's type checker and MIR construction as dumped b
          "frozen); clang 14's AST for the vendored C where used. ")
 
 CLAIMED = {
+    "C05": dict(
+        technique="arm-region template extraction from MIR (path enumeration + expression reconstruction) against the Bit Machine's operational semantics",
+        text="Decides the interpreter-shape clause only: for each of the 16 combinators and each decision path (choice bit, "
+             "assertion side) the ordered machine operations the interpreter performs — direct calls and deferred call-stack "
+             "entries in LIFO order — with the provenance of every width argument equal the instruction template of the "
+             "tech report's (non-TCO) Bit Machine; frames/cursor moves are paired; the unwinder runs the operation each deferred "
+             "entry names; exec_jet sizes frames from the jet's own source/target types. Outputs, jets' functions and Frame "
+             "cursor arithmetic are not decided.",
+        note=TRUST + "The 19-row template table in c05.py is transcribed from the Simplicity tech report (section on the Bit Machine). "
+             "Assumes the machine primitives in frame.rs are correct.",
+        design="3/C05"),
+    "C07": dict(
+        technique="max-plus expression reconstruction and term-wise domination between two pieces of code (bounds vs interpreter template); dominator rules for limit checks",
+        text="Discharges the inductive step of the property statically: per combinator, the extra_cells/extra_frames that "
+             "RedeemData::new stores (NodeBounds::v inlined at its call site) dominate, as max-plus polynomials over children's "
+             "bounds and type widths, the high-water mark of the instruction template extracted from the interpreter's MIR. "
+             "Plus: for_program checks limits before allocating, allocates exactly the checked sums, the guards compare the right "
+             "quantity with the right constant and fail with Err, and a BitMachine cannot be built any other way.",
+        note=TRUST + "Does not decide that Frame operations stay inside the frame they are given, nor the base case for jets.",
+        design="3/C07"),
     "C09": dict(
         technique="MIR provenance/non-interference analysis + sibling-table comparison (custom rustc_private driver)",
         text="Decides, for every constructor, conversion and match arm that can write a node's commitment root, that the "
